@@ -98,6 +98,15 @@ func checkC19(c *core.Ctx) {
 				case "OpenFile":
 					if len(call.Args) >= 2 && strings.Contains(wire.Canon(call.Args[1]), "O_TRUNC") {
 						c.Check("R1", name+" truncates a user-named file with os.OpenFile(O_TRUNC)", p.Pos(call.Pos()), false, "see os.Create")
+					} else if len(call.Args) >= 2 {
+						flags := wire.Canon(call.Args[1])
+						for _, fl := range []string{"O_CREATE", "O_WRONLY", "O_RDWR", "O_APPEND"} {
+							if strings.Contains(flags, fl) {
+								c.Check("R1", name+" opens a user-named file for writing with os.OpenFile("+fl+")", p.Pos(call.Pos()), false,
+									"the tools replace their target by writing a temporary and renaming it; opening the target itself for writing (or creating it) before the work that can still fail has finished leaves an empty or altered file behind when that work fails")
+								break
+							}
+						}
 					}
 				case "CreateTemp":
 					temps++
@@ -341,6 +350,46 @@ func errorArmsReturn(c *core.Ctx, p *load.Prog, info *types.Info, fd *ast.FuncDe
 			r := ifs.Body.List[len(ifs.Body.List)-1].(*ast.ReturnStmt)
 			if lastResultIsNil(r) {
 				c.Check("R3", name+" returns the error it detected", p.Pos(ifs.Pos()), false, "the arm for "+v.Name()+" != nil returns nil")
+			}
+			// no way out of the arm before that return: a nested `continue` or
+			// `break` (print the error and carry on) leaves with the error unreported
+			escape := token.NoPos
+			var walk func(n ast.Node)
+			walk = func(n ast.Node) {
+				ast.Inspect(n, func(m ast.Node) bool {
+					switch x := m.(type) {
+					case *ast.FuncLit, *ast.ForStmt, *ast.RangeStmt:
+						return false
+					case *ast.SwitchStmt, *ast.SelectStmt, *ast.TypeSwitchStmt:
+						// a break inside belongs to the switch; a continue does not
+						ast.Inspect(x, func(k ast.Node) bool {
+							switch y := k.(type) {
+							case *ast.FuncLit, *ast.ForStmt, *ast.RangeStmt:
+								return false
+							case *ast.BranchStmt:
+								if y.Tok == token.CONTINUE || y.Tok == token.GOTO {
+									escape = y.Pos()
+								}
+							}
+							return true
+						})
+						return false
+					case *ast.BranchStmt:
+						if x.Tok == token.CONTINUE || x.Tok == token.BREAK || x.Tok == token.GOTO {
+							escape = x.Pos()
+						}
+					case *ast.ReturnStmt:
+						if x != r && lastResultIsNil(x) {
+							escape = x.Pos()
+						}
+					}
+					return true
+				})
+			}
+			walk(ifs.Body)
+			if escape.IsValid() {
+				c.Check("R3", name+" returns the error it detected (no way out of the error arm)", p.Pos(escape), false,
+					"inside the arm for "+v.Name()+" != nil a nested statement leaves the arm without returning the error (continue/break/return nil): on that path the failure is printed at most and the tool exits 0")
 			}
 			return true
 		}
